@@ -480,6 +480,15 @@ Theorem C15_append_refused_nothing : forall st i, fst (step st (OAppendBad i)) =
 Proof. exact append_bad_nothing. Qed.
 Print Assumptions C15_append_refused_nothing.
 
+(* an IN-PLACE operator whose result dtype NumPy's same_kind casting cannot store into the target's buffer
+   (int64 += float64, bool += int, ...: UFuncTypeError — what a Python list of NumPy arrays does as well) is
+   refused before anything is written: no element of any object changes, whether the operand is a scalar or a
+   sequence, however many elements the target has (all-or-none, none here) *)
+Theorem C15_inplace_refused_nothing : forall st i oj, fst (step st (OOpRefused i oj)) = st /\
+  exists e, snd (step st (OOpRefused i oj)) = RErr e.
+Proof. exact op_refused_nothing. Qed.
+Print Assumptions C15_inplace_refused_nothing.
+
 Theorem C15_shrink_op : forall st i, wf st -> is_live st i = true -> scache (getseq st i) = None ->
   let st' := fst (step st (OShrink i)) in
   snd (step st (OShrink i)) = ROk /\ seqs st' = seqs st /\
